@@ -514,7 +514,7 @@ class SymExec(object):
             c = self.module_const(n.id)
             if c is not None:
                 return c
-            return ('name', n.id)
+            return ('name', self.canonical(n.id))
         if isinstance(n, ast.Attribute):
             b = E(n.value)
             if n.attr in self.watch_attrs:
@@ -707,6 +707,12 @@ class SymExec(object):
         return ('expr', src(n))
 
     # -- interprocedural helpers ---------------------------------------------
+    def canonical(self, name):
+        """reference name of a module-level private function that was renamed (see core.renamed_privates)"""
+        mt = self.modtree
+        al = getattr(mt, '_aliases', None) if mt is not None else None
+        return al.get(name, name) if al else name
+
     def module_const(self, name):
         """term of a module-level name bound exactly once to a literal made of constants (str/num/tuples/sets/dicts)"""
         modtree = self.modtree
@@ -757,7 +763,7 @@ class SymExec(object):
             while scope is not None and fd is None:
                 if isinstance(scope, (ast.FunctionDef, ast.Module)):
                     for s_ in scope.body:
-                        if isinstance(s_, ast.FunctionDef) and s_.name == f[1]:
+                        if isinstance(s_, ast.FunctionDef) and (s_.name == f[1] or (isinstance(scope, ast.Module) and self.canonical(s_.name) == f[1])):
                             fd = s_
                 scope = getattr(scope, '_parent', None)
             if fd is None:
@@ -774,7 +780,7 @@ class SymExec(object):
                 for s_ in owner.body:
                     if isinstance(s_, ast.FunctionDef) and s_.name == f[2]:
                         fd = s_
-        if fd is None or fd in self._stack or fd.name in self.no_inline:
+        if fd is None or fd in self._stack or fd.name in self.no_inline or self.canonical(fd.name) in self.no_inline:
             return None
         deco = [src(d) for d in fd.decorator_list]
         if any(d not in ('staticmethod', 'classmethod') for d in deco):
